@@ -136,8 +136,9 @@ def run_case(rec: Recorder, case: dict[str, typing.Any]) -> None:
                     if not isinstance(exc, (ConnectTimeoutError, MaxRetryError)) and not (case["scheme"] == "tunnel" and isinstance(exc, ProxyError)):
                         rec.fail(case, "connect-timeout-not-raised", dict(obs), f"connect took {cdur} > {want_ct} but the call ended with {exc!r}")
                     return  # nothing more happens for this request; later requests are still judged
-                if case["scheme"] != "tunnel":
-                    elapsed += cdur  # (a tunnel is established before the request's own clock starts)
+                elapsed += cdur  # (also for a tunnel: connecting to the proxy is the connect phase of the attempt)
+                if case["scheme"] == "tunnel":
+                    elapsed += float(p.get("send_dur", 0))  # ... and so is writing the CONNECT request
             # ---- read phase ----
             want_rt = min(R, T - elapsed) if T != INF else R
             want_rt = max(0.0, want_rt)
